@@ -40,6 +40,24 @@ impl<'a> LineIndex<'a> {
     pub fn line_count(&self) -> usize {
         self.lines.len()
     }
+    /// Position -> byte offset (same model as `offset`)
+    pub fn offset(&self, line: u32, character: u32) -> Option<usize> {
+        let Some(&(s, e)) = self.lines.get(line as usize) else {
+            return Some(self.text.len());
+        };
+        let mut col = 0u32;
+        for (i, c) in self.text[s..e].char_indices() {
+            if col == character {
+                return Some(s + i);
+            }
+            let w = c.len_utf16() as u32;
+            if col < character && character < col + w {
+                return None;
+            }
+            col += w;
+        }
+        Some(e)
+    }
     /// byte offset (on a char boundary) -> Position
     pub fn position(&self, off: usize) -> (u32, u32) {
         // last line whose start <= off
